@@ -150,6 +150,9 @@ func c11(args []string) error {
 		}
 		os.WriteFile(in, []byte(fa.String()), 0644)
 		seed := r.Int63n(1 << 40)
+		if r.Intn(8) == 0 { // every seed but the documented -1 (clock) must be honoured
+			seed = []int64{0, -2, -7, -9223372036854775808, 9223372036854775807}[r.Intn(5)]
+		}
 		t2 := []int{2, 3, 8, 16}[r.Intn(4)]
 		switch kind := r.Intn(13); {
 		case kind < 5: // the same command twice, different thread counts
